@@ -64,6 +64,9 @@ def check_program(ctx, bt, spec, b, log):
 
 
 def run(ctx, bt):
+    from .. import gen_engine as _G
+    run_engine_protocol(ctx, bt, ctx.scale(20, 300), [Monitor(ctx)], FOOT_FIELDS, None, spec_kwargs={"fi_tree": False},
+                        spec_mutator=_G.custom_price_trades, corr_name="step[C07]:custom-price-trades-with-multipliers")
     run_engine_protocol(ctx, bt, ctx.scale(110, 1200), [Monitor(ctx)], FOOT_FIELDS, None, corr_name="step[C07]")
     run_programs(ctx, bt, ctx.scale(90, 1500), check_program)
     from ..runs_run import run_steps_protocol
